@@ -22,7 +22,7 @@ RULE = ("seeded clusters: 1-6 looms on 1-4 hosts with clock skews (up to 50 min 
 REAL = ["ovniemu, ovnidump -x, ovnitop (src/emu/**: player.c, heap.h, stream.c, trace.c, system.c, clkoff.c) built from /repo's working tree",
         "heap.h additionally inside aux/heap_harness.c"]
 STUB = ["libovni replaced by the independent trace writer sim/tracefmt.py", "directory enumeration order driven through creation order on tmpfs"]
-ASSUMPTIONS = ["raw clocks are positive (BASE 1e13 ns); corrected clocks may be negative (5% of the tables shift every host by -2e13 ns)",
+ASSUMPTIONS = ["raw clocks are positive (BASE 1e13 ns); corrected clocks may be negative (5% of the tables shift every host by -2e13 ns, 6% by an amount that puts time zero inside the run)",
                "with equal corrected clocks across streams only the *set* of events per timestamp is compared (the statement leaves tie order open)",
                "ovnidump/ovnitop apply no offsets: what they print is first checked against raw clocks (loss-free, per-stream order, "
                "non-decreasing raw time) and then against corrected time, where the mismatch is the recorded finding O3 (KNOWN_FINDINGS)"]
@@ -185,6 +185,11 @@ def gen(rng, tier, idx):
     # 5%: the table moves every host by the same extra amount, far enough for all corrected clocks to be negative (times in
     # the output are relative to the first event, so nothing else changes)
     shift = 2 * BASE_CLOCK if (table_mode in ("default", "dash-c") and rc.chance(5)) else 0
+    rs = rng.derive("straddle")
+    if shift == 0 and table_mode in ("default", "dash-c") and rs.chance(6):
+        # 6%: the common shift puts time zero *inside* the run: corrected clocks of the early events are negative, those of
+        # the later ones are not, so streams with pending clocks of either sign meet in the merge
+        shift = BASE_CLOCK + 1 + sum(d for _, d in sched) * rs.below(9) // 8
     huge = []
     if idx % 400 == 203:
         # a stream of more than 4 GiB: two or three jumbo events of 2-4 GiB each (zero bytes, left as holes of a sparse file)
